@@ -1,4 +1,4 @@
-\* full, safety: dialer node, adversary with 3 moves, link may go silent, Shutdown or CancelBackends at any point
+\* full, safety: listener node, adversary with 4 moves, Shutdown at any point and restart
 SPECIFICATION Spec
 CONSTANTS
   Links = {1}
@@ -10,14 +10,14 @@ CONSTANTS
   QLen = 1
   Sync = FALSE
   Coarse = FALSE
-  RealNodes = {"a"}
+  RealNodes = {"b"}
   CancelOnReturn = TRUE
-  BSilence = 1
+  BSilence = 0
   BCut = 0
-  ShutNodes = {"a"}
-  CancelNodes = {"a"}
-  BReborn = 0
-  BAdv = 3
+  ShutNodes = {"b"}
+  CancelNodes = {}
+  BReborn = 1
+  BAdv = 4
   BIdle = 1
   BDial = 2
   Wit = FALSE
